@@ -53,6 +53,10 @@ type Case struct {
 	// Stated: the descriptor states a size that differs from the length of the intended content
 	// (plus1, minus1, half, double); the digest is right and the store is intact unless Xform says otherwise
 	Stated string `json:"stated,omitempty"`
+	// DCD: the Docker-Content-Digest header of the registry's answer: "" absent, "intended" the digest
+	// the caller asked by, "served" the digest of the bytes actually served (a self-consistent answer
+	// for other content), "served-other-algo" that digest in the other algorithm
+	DCD string `json:"dcd,omitempty"`
 }
 
 func statedSize(n int, how string) int64 {
@@ -189,6 +193,14 @@ func (r *rt) RoundTrip(req *http.Request) (*http.Response, error) {
 		return mk(404, &body{end: io.EOF}), nil
 	}
 	y := r.served
+	switch r.c.DCD {
+	case "intended":
+		hdr.Set("Docker-Content-Digest", dig(r.c.Algo, contentBytes(r.c.Content)).String())
+	case "served":
+		hdr.Set("Docker-Content-Digest", dig(r.c.Algo, y).String())
+	case "served-other-algo":
+		hdr.Set("Docker-Content-Digest", dig(map[string]string{"sha256": "sha512", "sha512": "sha256"}[r.c.Algo], y).String())
+	}
 	start := 0
 	rng := req.Header.Get("Range")
 	r.log = append(r.log, req.Method+" range="+rng)
@@ -241,7 +253,7 @@ func (r *rt) RoundTrip(req *http.Request) (*http.Response, error) {
 	case "right":
 		cl = len(out)
 	case "intended":
-		cl = len(r.c.Content) - start
+		cl = len(contentBytes(r.c.Content)) - start
 	case "plus1":
 		cl = len(out) + 1
 	case "minus1":
@@ -576,6 +588,23 @@ func enumerate(thorough bool, emit func(Case)) {
 						}
 					}
 				}
+				// the registry announces a digest of its own
+				for _, dcd := range []string{"intended", "served", "served-other-algo"} {
+					for _, xf := range []string{"id", "subst-same", "subst-longer", "subst-shorter", "flip@0", "extra1"} {
+						if (xf == "flip@0" || xf == "subst-shorter") && n == 0 {
+							continue
+						}
+						for _, cl := range []string{"right", "absent"} {
+							for _, rd := range [][]int{{64}, {1, 64}} {
+								for _, sep := range []bool{false, true} {
+									emit(Case{Content: x, Algo: algo, Sized: sized, Store: "reg", Xform: xf, CL: cl, Reads: rd, EOFSep: sep, Mode: "read", DCD: dcd})
+								}
+							}
+							emit(Case{Content: x, Algo: algo, Sized: sized, Store: "reg", Xform: xf, CL: cl, Mode: "rawbody", DCD: dcd})
+							emit(Case{Content: x, Algo: algo, Sized: sized, Store: "reg", Xform: xf, CL: cl, Reads: []int{2, 64}, Mode: fmt.Sprintf("rewind@%d", min(1, len(xform([]byte(x), xf)))), DCD: dcd})
+						}
+					}
+				}
 				// a descriptor whose stated size differs from the content it names (digest right)
 				if sized {
 					for _, st := range []string{"plus1", "minus1", "half", "double"} {
@@ -664,7 +693,7 @@ func enumerateStructured(emit func(Case)) {
 func TestVerifC01(t *testing.T) {
 	rec := ev.New()
 	defer rec.Flush(t)
-	rec.Rule("case = content (all strings over {a,b} of length 0..4, thorough 0..6, plus one 70-byte string) x digest algorithm x size stated/unknown/stated wrongly (±1, half, double; digest right) x store {registry (scripted transport), OCI layout file, inline data} x served-stream transformation {identity, flip at every offset, truncation at every offset, 1-2 extra bytes, substitution of equal / greater / smaller length} x Content-Length {right, absent, +1, -1, of the intended content} x every composition of read sizes from {1,2,3} (plus large reads and zero-length reads) x EOF with / after the last data x mode {read, RawBody, rewind after k bytes then read}; plus the structured readers on real content (a tar, a gzip-compressed tar, a config JSON; flips at 21 positions incl. header, data, padding and trailer, truncations, extra bytes): BTarReader.RawBody, ReadFile of an absent name, a full walk followed by that search, ToOCIConfig x connection drops at every offset (1, and 2 nearby) x range answer {correct, shifted -1/+1, other bytes, 200 full body, 206 without Content-Range, 416, 500 then correct}. " +
+	rec.Rule("case = content (all strings over {a,b} of length 0..4, thorough 0..6, plus one 70-byte string) x digest algorithm x size stated/unknown/stated wrongly (±1, half, double; digest right) x store {registry (scripted transport), OCI layout file, inline data} x served-stream transformation {identity, flip at every offset, truncation at every offset, 1-2 extra bytes, substitution of equal / greater / smaller length} x Content-Length {right, absent, +1, -1, of the intended content} x Docker-Content-Digest header {absent, the digest asked by, the digest of what is served, that digest in the other algorithm} x every composition of read sizes from {1,2,3} (plus large reads and zero-length reads) x EOF with / after the last data x mode {read, RawBody, rewind after k bytes then read}; plus the structured readers on real content (a tar, a gzip-compressed tar, a config JSON; flips at 21 positions incl. header, data, padding and trailer, truncations, extra bytes): BTarReader.RawBody, ReadFile of an absent name, a full walk followed by that search, ToOCIConfig x connection drops at every offset (1, and 2 nearby) x range answer {correct, shifted -1/+1, other bytes, 200 full body, 206 without Content-Range, 416, 500 then correct}. " +
 		"Oracle: a read that ends in io.EOF delivered exactly the intended content (the only string of the alphabet with that digest); an intact stream (with correct resumes) must be readable. distinct_nontrivial = cases whose served stream differs from the intended content or involves a drop")
 	rec.Assume("the scripted transport hands out bodies the way net/http does (never more than Content-Length bytes; early close = unexpected EOF)")
 	rec.Assume("two distinct strings of the enumerated alphabet never share a digest")
